@@ -63,6 +63,17 @@ func (x hev) factOrdered(holds bool, subs ...string) (FactT, bool) {
 	return FactT{}, false
 }
 
+// fieldFact finds a fact that IS a boolean field selection ending in suffix (not a
+// comparison or call that merely mentions the field among its operands).
+func (x hev) fieldFact(holds bool, suffix string) (FactT, bool) {
+	for _, ft := range x.w.FactsAt(x.ev.Fr, x.ev.Site) {
+		if ft.Holds == holds && !isOutcomeFact(ft.Text) && strings.HasSuffix(ft.Text, suffix) && !strings.HasPrefix(ft.Text, "(") {
+			return ft, true
+		}
+	}
+	return FactT{}, false
+}
+
 func (x hev) fact(holds bool, subs ...string) (FactT, bool) {
 	return hasFact(x.w.FactsAt(x.ev.Fr, x.ev.Site), holds, subs...)
 }
@@ -104,7 +115,7 @@ func runC03(cx *Ctx, r *Report) {
 	for _, x := range per["ClaimHTLC"] {
 		switch x.ev.Kind {
 		case "bank.SendCoinsFromModuleToAccount":
-			if _, ok := x.fact(true, H+".Transfer"); ok {
+			if _, ok := x.fieldFact(true, H+".Transfer"); ok {
 				give = append(give, x)
 			} else {
 				plain = append(plain, x)
@@ -124,10 +135,10 @@ func runC03(cx *Ctx, r *Report) {
 		amt := H + ".Amount"
 		okEnds := plain[0].ev.Args[2].LooseString() == to && lastArgS(plain[0].ev) == amt && give[0].ev.Args[2].LooseString() == to && lastArgS(give[0].ev) == amt && lastArgS(mint[0].ev) == amt && lastArgS(burn[0].ev) == amt
 		r.check(okEnds, "claim-inventory", "ClaimHTLC|endpoints", plain[0].ev.Pos(cx), "payouts go to the stored To with the stored Amount; mint/burn use the stored Amount", "claim payout endpoints/amounts differ from the stored To/Amount: "+plain[0].ev.Args[2].LooseString()+" "+lastArgS(plain[0].ev)+" / "+give[0].ev.Args[2].LooseString()+" "+lastArgS(give[0].ev)+" / mint "+lastArgS(mint[0].ev)+" / burn "+lastArgS(burn[0].ev))
-		_, g1 := plain[0].fact(false, H+".Transfer")
-		_, g2a := mint[0].fact(true, H+".Transfer")
+		_, g1 := plain[0].fieldFact(false, H+".Transfer")
+		_, g2a := mint[0].fieldFact(true, H+".Transfer")
 		_, g2b := mint[0].fact(true, "("+H+".Direction == 1)")
-		_, g3a := burn[0].fact(true, H+".Transfer")
+		_, g3a := burn[0].fieldFact(true, H+".Transfer")
 		_, g3b := burn[0].fact(false, "("+H+".Direction == 1)")
 		r.check(g1 && g2a && g2b && g3a && g3b && coExecuted(mint[0].ev, give[0].ev), "claim-routes-exclusive", "ClaimHTLC", mint[0].ev.Pos(cx), "routes are guarded by ¬Transfer | Transfer∧Direction==Incoming (mint then pay) | Transfer∧Direction≠Incoming (burn): pairwise contradictory", "the three claim routes are not guarded by pairwise contradictory conditions on Transfer/Direction")
 		// at least one route on every successful path of the function that dispatches
@@ -502,8 +513,8 @@ func runC04(cx *Ctx, r *Report) {
 		// converse: every mint / burn, and every escrow movement of a cross-chain transfer, is matched
 		for _, b := range banks {
 			transfer := false
-			for _, s := range []string{"msg.Transfer", ".Transfer"} {
-				if _, ok := b.fact(true, s); ok {
+			for _, s := range []string{".Transfer"} {
+				if _, ok := b.fieldFact(true, s); ok {
 					transfer = true
 				}
 			}
